@@ -23,11 +23,20 @@ def plan(tier):
 def int16_census(mo):
   """Mechanism features of an output model used to attribute interpreter aborts."""
   BO = models.BO
-  feats = {'int16_ops': [], 'has_int16': False}
+  feats = {'int16_ops': [], 'has_int16': False, 'addsub_scale_ratio_beyond_kernel_limit': False}
   for sg in mo.subgraphs:
     for op in sg.operators:
       c = mo.operatorCodes[op.opcodeIndex].builtinCode
       ins = [sg.tensors[int(i)] for i in op.inputs if int(i) >= 0]
+      if c in (BO.ADD, BO.SUB) and len(ins) == 2 and all(t.type in (models.TT.INT8, models.TT.INT16) for t in ins):
+        # the runtime's ADD/SUB Prepare CHECK-fails (aborts) when 2*max(input scale) / (2^left_shift * output scale) >= 1
+        qi = [decode.qparams(t) for t in ins]
+        outs_ = [sg.tensors[int(o)] for o in op.outputs]
+        qo = decode.qparams(outs_[0]) if outs_ else None
+        if all(q is not None for q in qi) and qo is not None:
+          left_shift = 15 if ins[0].type == models.TT.INT16 else 20
+          if 2.0 * max(float(q[0][0]) for q in qi) / ((1 << left_shift) * float(qo[0][0])) >= 1.0:
+            feats['addsub_scale_ratio_beyond_kernel_limit'] = True
       if any(t.type == models.TT.INT16 for t in ins):
         feats['has_int16'] = True
         nm = models.CODE_NAMES.get(c, '?')
@@ -64,6 +73,19 @@ def interp_error_features(msg, mo):
           if float(qp[0][0]) * levels <= 2.02e-4:
             floor = True
       f['node_out_range_is_floor'] = floor
+      # is the bias scale the correctly rounded float32 product of input and weight scale (i.e. nothing better can be stored)?
+      try:
+        opn = m.group(2)
+        pos = {'FULLY_CONNECTED': (0, 1, 2), 'CONV_2D': (0, 1, 2), 'DEPTHWISE_CONV_2D': (0, 1, 2), 'TRANSPOSE_CONV': (2, 1, 3)}.get(opn)
+        if pos and len(op.inputs) > pos[2] and int(op.inputs[pos[2]]) >= 0:
+          qin, qw, qb = (decode.qparams(sg.tensors[int(op.inputs[i])]) for i in pos)
+          if qin is not None and qw is not None and qb is not None:
+            import numpy as _np
+            prod = _np.float64(qin[0][0]) * qw[0].astype(_np.float64)
+            ulp = _np.spacing(prod.astype(_np.float32)).astype(_np.float64)
+            f['bias_scale_is_rounded_product'] = bool(_np.all(_np.abs(qb[0].astype(_np.float64) - prod) <= ulp))
+      except Exception:  # pylint: disable=broad-except
+        pass
   return f
 
 
